@@ -520,6 +520,19 @@ def judge_crash(v, case, plan, res, names):
                             f"crash at {s['label']} ({s['variant']}) step {step}: recovered {got}, "
                             f"allowed {before} or {after}")
                 continue
+            # an interrupted DELETE issued again is accepted and leaves the state after the statement
+            if "redo" in snap:
+                rd = snap["redo"]
+                if not rd["ok"]:
+                    v.violation(dict(info, redo=rd), f"after recovery from {s['label']} ({s['variant']}) step {step} the "
+                                f"interrupted DELETE is refused when issued again: {str(rd.get('err'))[:160]}")
+                    continue
+                got_r = state_of(snap["state_after_redo"], names)
+                if got_r != after:
+                    v.violation(dict(info, observed=got_r, after=after),
+                                f"after recovery from {s['label']} step {step} and the DELETE issued again: {got_r}, expected {after}")
+                    continue
+                got = got_r
             # post-boot usability: the probe statements succeed exactly on existing tables
             pr = snap["probe"]
             exp_ok = []
